@@ -62,3 +62,71 @@ func H_C14(tbl, router, stage int) {
 	}
 	verifAssert(vSameOutcome(o1, o2), "C14: a trailing slash on the request path changes the outcome")
 }
+
+// H_C14_seq: the same law on a container with a history: requests for p and p/ were (or were not) served before routes
+// were added to the WebService. Only "p and p/ have the same outcome" is judged - never what that outcome is - so that a
+// router that legitimately remembers something is not accused as long as it remembers it for both spellings.
+// mode 0: routes added after Add without dynamic routes; 1: with dynamic routes; 2: with dynamic routes, and a route is removed as well
+func H_C14_seq(router, mode int) {
+	var ran []string
+	var seen map[string]string
+	fn := func(id string) RouteFunction {
+		return func(req *Request, resp *Response) {
+			ran = append(ran, id)
+			seen = map[string]string{}
+			for k, v := range req.PathParameters() {
+				seen[k] = v
+			}
+		}
+	}
+	c := NewContainer()
+	c.Router(vRouter(router))
+	ws := new(WebService)
+	ws.Path("/t")
+	if mode >= 1 {
+		ws.SetDynamicRoutes(true)
+	}
+	ws.Route(ws.GET("/{v}").To(fn("get-var")))
+	ws.Route(ws.PUT("/b").To(fn("put-b")))
+	ws.Route(ws.GET("/b/{w}").To(fn("get-b-var")))
+	c.Add(ws)
+	p := nondetString("path", 9)
+	verifAssume(!strings.HasSuffix(p, "/"))
+	verifAssume(len(strings.Trim(p, "/")) > 0)
+	verifAssume(strings.Count(strings.Trim(p, "/"), "/") < 3)
+	method := []string{"GET", "PUT", "POST"}[nondetChoice("method", 3)]
+	type out struct {
+		status int
+		ran    string
+		allow  string
+		params map[string]string
+	}
+	run := func(path string) out {
+		ran, seen = nil, nil
+		rec := vNewRec()
+		c.Dispatch(rec, vReq{method: method, path: path}.http())
+		return out{rec.code(), strings.Join(ran, ","), vHdr1(rec, "Allow"), seen}
+	}
+	if nondetBool("warm-p") {
+		run(p)
+	}
+	if nondetBool("warm-p-slash") {
+		run(p + "/")
+	}
+	ws.Route(ws.GET("/a").To(fn("get-a")))
+	ws.Route(ws.PUT("/{u}").To(fn("put-var")))
+	ws.Route(ws.GET("/b/c").To(fn("get-b-c")))
+	if mode == 2 {
+		ws.RemoveRoute("/t/b", "PUT")
+	}
+	o1 := run(p)
+	o2 := run(p + "/")
+	verifObserveInt("status", o1.status)
+	verifObserveStr("route", o1.ran)
+	if o1.ran != "" {
+		verifCover("invoked")
+	} else {
+		verifCover("not-invoked")
+	}
+	verifAssert(o1.status == o2.status && o1.ran == o2.ran && o1.allow == o2.allow && vSameParams(o1.params, o2.params), "C14: after routes were added, a trailing slash on the request path changes the outcome")
+}
